@@ -27,7 +27,13 @@ import (
 	"time"
 )
 
-const verifDir = "/verif"
+// verifDir is where this machinery lives: /verif, or a snapshot of it (VERIF_ROOT is set by ./check).
+var verifDir = func() string {
+	if r := os.Getenv("VERIF_ROOT"); r != "" {
+		return r
+	}
+	return "/verif"
+}()
 
 var harnessDir = filepath.Join(verifDir, "harness")
 
